@@ -236,8 +236,16 @@ func init() { vrt.Register("VerifC17_ResponseNested", VerifC17_ResponseNested) }
 func VerifC17_ResponseNested() {
 	list := verifC17RespLists[vrt.Param("ML")]
 	pres := vrt.Param("PRES") // bit 0 h, 1 m, 2 p (inside sub), bit 3 tail
+	// HREQ: requiredness of the header-mapped nested field (1 required: only with the field present - a present
+	// field that was delivered to the header is not "missing")
+	hreq := vrt.Param("HREQ")
+	if hreq == 1 && pres&1 == 0 {
+		vrt.Reach("converted")
+		vrt.Reach("error")
+		return
+	}
 	sub := thrift.VerifNewStruct("Sub", 4)
-	fh := thrift.VerifAddField(sub, thrift.VField{ID: 1, Name: "h", Type: thrift.VerifBasic(thrift.STRING), Req: 2}, thrift.Options{})
+	fh := thrift.VerifAddField(sub, thrift.VField{ID: 1, Name: "h", Type: thrift.VerifBasic(thrift.STRING), Req: hreq}, thrift.Options{})
 	fm := thrift.VerifAddField(sub, thrift.VField{ID: 2, Name: "m", Type: thrift.VerifBasic(thrift.STRING), Req: 2}, thrift.Options{})
 	thrift.VerifAddField(sub, thrift.VField{ID: 3, Name: "p", Type: thrift.VerifBasic(thrift.I32), Req: 2}, thrift.Options{})
 	thrift.VerifAddHTTP(sub, fh, annotation.VerifHTTP(3, "X-I"))
